@@ -12,8 +12,8 @@
   (`c14_kernel_propagates`, `c14_opcount_prefix`) — proved for EVERY computation over the operator, hence for every kernel, size,
   input and fault index; lifted through `Orch.init`/`Orch.compute` to the whole solver for every fault index from 1 to the number
   of applications of the fault-free run (`c14_propagates`).
-  Source facts regenerated on every run (`Gen.FaultFootprint`): no raw allocation and no try/catch in any function of the solver,
-  factorization and helper classes (`c14_no_leak`), `SparseRegularInverse::solve` is a conforming thrower (`c14_lib_thrower`).
+  Source facts regenerated on every run (`Gen.FaultFootprint`): no raw allocation in any function of the solver, factorization and
+  helper classes, and the only try/catch is a catch-all that restores the operator's shift and rethrows the same exception (`c14_no_leak`), `SparseRegularInverse::solve` is a conforming thrower (`c14_lib_thrower`).
 -/
 import SpectraVerif.Properties.C06
 import SpectraVerif.Properties.C12
@@ -154,14 +154,24 @@ end kernel
 
 open Gen.FaultFootprint in
 /-- in every function (constructors, destructors, all members) of every solver, factorization, decomposition and wrapper class
-    of namespace Spectra outside the contrib/Davidson families there is NO raw `new`/`delete`/`malloc`/`free` expression and
-    NO `try`/`catch`; every member function the property names was found and scanned; no `throw;` (rethrow) exists and every
-    thrown type is one of the three standard ones.  So every local of `restart`/`compute`/`factorize_from`/`expand_basis`/
-    `retrieve_ritzpair`/`sort_ritzpair` is an automatic object (unwinding destroys it: `c14_unwind_frees_all`), and nothing
-    between the operator and the caller can swallow the user's exception or replace it by another one. -/
+    of namespace Spectra outside the contrib/Davidson families there is NO raw `new`/`delete`/`malloc`/`free` expression; every
+    member function the property names was found and scanned; the ONLY `try`/`catch` is the one in
+    `GenEigsComplexShiftSolver::sort_ritzpair` (repair of C14-F1), whose single handler is a catch-all `catch (...)` with exactly
+    two statements: the call `m_op.set_shift(m_sigmar, m_sigmai)` (re-install the constructor's shift in the user's operator) and
+    a bare `throw;` as the LAST statement — a rethrow of the SAME exception object — and no other throw; the only rethrow in the
+    scanned classes is that one, every other thrown type is one of the three standard ones.
+    So every local of `restart`/`compute`/`factorize_from`/`expand_basis`/`retrieve_ritzpair`/`sort_ritzpair` is an automatic
+    object (unwinding destroys it: `c14_unwind_frees_all`), and nothing between the operator and the caller swallows the user's
+    exception or replaces it by another one (any other handler, a handler that does not end in `throw;`, a typed handler, or
+    any further call inside the handler changes the regenerated lists and breaks this theorem). -/
 theorem c14_no_leak :
-    raw_alloc = [] ∧ try_catch = [] ∧ required_missing = [] ∧
-    (∀ t ∈ throws, t.2.2 = "std::invalid_argument" ∨ t.2.2 = "std::logic_error" ∨ t.2.2 = "std::runtime_error") ∧
+    raw_alloc = [] ∧ required_missing = [] ∧
+    try_catch = [("GenEigsComplexShiftSolver", "sort_ritzpair", "catch"), ("GenEigsComplexShiftSolver", "sort_ritzpair", "try")] ∧
+    catch_handlers = [("GenEigsComplexShiftSolver", "sort_ritzpair", true, true, ["m_op.set_shift(m_sigmar,m_sigmai)"])] ∧
+    catch_handler_shape = [("GenEigsComplexShiftSolver", "sort_ritzpair", 2, 1)] ∧
+    (∀ t ∈ throws, t.2.2 = "std::invalid_argument" ∨ t.2.2 = "std::logic_error" ∨ t.2.2 = "std::runtime_error" ∨
+      t = ("GenEigsComplexShiftSolver", "sort_ritzpair", "rethrow")) ∧
+    (throws.filter (fun t => t.2.2 == "rethrow")).length = catch_handlers.length ∧
     scanned.length ≥ 40 := by decide
 
 /-- unwinding model (the one of C12): if every resource acquired before the throw point is owned by an automatic object,
